@@ -28,7 +28,7 @@ THEOREMS = ["C08_mean_obliquity_polynomial", "C08_mean_obliquity_vs_IAU", "C08_t
             "C08_node_nutation_constants",
             "C08_nutation_longitude_structure", "C08_nutation_obliquity_structure", "C08_nutation_remainders",
             "C08_nutation_longitude_main_term", "C08_nutation_obliquity_main_term",
-            "C08_true_obliquity_closed"]
+            "C08_true_obliquity_closed", "C08_equation_of_equinoxes"]
 PROOF_TIMEOUT = {"quick": 2200, "thorough": 3000}
 EXHAUSTIVE = False
 MANIFEST = {
@@ -59,6 +59,7 @@ CLAUSES = {
     "nutation in longitude within 3.5 arcsec of -17.20 sin(Omega), Omega = Moon.longitude_mean_ascending_node": "property clause proved [ideal, Epoch argument, |T| <= 20 centuries]: C08_nutation_longitude_main_term - the generated double loop is an instance of the generic loop theorem (C08_nut_loop.nut_fix_spec, induction, any table length; unification with the generated text), so nutation_longitude = Angle(0,0, sum_i (a_i + b_i T) sin(sum_j n_ij F_j(T))/1e4) on the extracted tables (C08_nutation_longitude_structure); the rows after the first are bounded by their amplitudes read from the table: 2.25 arcsec (C08_nutation_remainders); the code's node polynomial is C08_node.node_nutation (reflexivity) and within 0.0024 deg of the Moon module's (C08_node_agreement, < 0.001 arcsec on the main term). Binary64 rounding: searched (worst 2.43 arcsec over -2000..4000)",
     "nutation in obliquity within 1.5 arcsec of 9.20 cos(Omega)": "property clause proved [ideal, Epoch argument, |T| <= 20 centuries]: C08_nutation_obliquity_main_term, same construction with the cosine table (49 rows; remainder 0.89 arcsec from the extracted amplitudes). Binary64 rounding: searched (worst 0.83 arcsec over -2000..4000)",
     "true obliquity = mean obliquity + nutation in obliquity": "property clause proved [ideal, Epoch argument, |T| <= 20], unconditionally: C08_true_obliquity_closed supplies both callee results from their own theorems (mean_obliquity polynomial, nutation_obliquity structure) and gives true_obliquity = ang(mean + deps/3600); C08_true_obliquity_structure is the form valid for any result of nutation_obliquity (errors propagate); C08_true_obliquity_is_sum is the conditional corollary, its premises now shown satisfiable",
+    "(clause of C16, proved here because this model contains Coordinates AND Epoch) apparent - mean sidereal time under 1.2 s": "proved [ideal, Epoch argument, T in [-10.5, 8.5] centuries = years 950..2850]: C08_equation_of_equinoxes - Epoch.apparent_sidereal_time applied to the values the generated true_obliquity and nutation_longitude return differs from mean_sidereal_time by less than 1.2 s (nutation amplitude from C08_nutation_remainders, obliquity from C08_true_obliquity_closed, interval arithmetic on dpsi_max(T) cos(eps(T))/15; the worst-case amplitude bound gives 1.2001 s at T = -11 and 1.2003 s at T = 9, so this is the largest provable range with it); outside: searched in C16 (known finding beyond years -2000..4000)",
     "coarse solar formulas within 0.02 degree of VSOP87 in 1800-2200": "UNPROVED (searched): worst 0.0095 degree; global numeric statement about a 1000-term series. In Coq only closed forms (pin the code): true_longitude_coarse for |t| <= 10 centuries, apparent_longitude_coarse with its callee abstracted; C08_coarse_constants is a constant read-out; apparent_rightascension_declination_coarse has no theorem",
     "date arguments in every accepted form": "UNPROVED (searched): all theorems are for an Epoch argument; the other forms go through Epoch.check_input_date (C02); every documented form of a calendar day gives the same Angle (searched)",
     "known-finding keys": "frame-j2000 / frame-earth-j2000 <= 160 arcsec & 8e-4 AU, frame-equinox <= 290 arcsec & 1.5e-3 AU, frame-b1950 <= 8000 arcsec & 4e-2 AU, norm-b1950 <= 2e-2 AU, beyond: <key>-gross. The b1950 envelope is necessarily wide (2.2 degrees) while the overwrite stays; a further defect inside any envelope is caught by frame-*-unexpected (code must equal the defect-free or the known-defect recomputation to 2.5e-7 AU) and frame-*-vs-corrected (the defect-free recomputation must meet the 2 arcsec clause)",
@@ -68,7 +69,7 @@ CLAUSES = {
 def proof_files(tier):
     return ["C08_base.v", "C08_obliquity.v", "C08_sun.v", "C08_j2000.v", "C08_angle2.v", "C08_frames.v",
             "C08_equinox.v", "C08_coarse.v", "C08_node.v",
-            "C08_nut_angle.v", "C08_nut_loop.v", "C08_nut_main.v", "C08_nut_bound.v", "C08_true.v", "C08.v"]
+            "C08_nut_angle.v", "C08_nut_loop.v", "C08_nut_main.v", "C08_nut_bound.v", "C08_true.v", "C08_eqeq.v", "C08.v"]
 
 
 # ----------------------------------------------------------------------------------------------
